@@ -16,7 +16,7 @@ class C06(InterpProp):
 
     def knobs(self, rnd, tier):
         return gen.Knobs(p_history=0.8, nested_targets=0.6, p_orth=0.4, max_states=rnd.choice([10, 16, 22]),
-                         trans_per_owner=2.5, p_guard=0.2, p_eventless=0.1, max_depth=5)
+                         trans_per_owner=1.5, p_guard=0.2, p_eventless=0.1, max_depth=5, history_focus=0.9)
 
     def check_exec(self, info, res):
         r, gh, sc = info['r'], info['ghost'], info['sc']
